@@ -8,7 +8,7 @@ Input : {"ids": [...], "mode": "nrt", "cases": [case, ...]}
         instr = {"op": .., "t": target, "v": int, "c": 0|1 (catch the exception of an API call)}
           body ops : yn v (yield v/8) | yv v (yield 's<v>') | ret | raise | yar v | alw v
                      next|stop|pause|resume|reset|play t | wait t | signal|unhang t | settest t v
-                     fget t | fset t v
+                     fget t | fset t v | embed t (yield from t.__embed__())
         external  : next t v (v = 0: no inval, else inval v/8) | play|pause|resume|stop|reset t
                     signal|unhang t | settest t v | fset t v | tick (pop one task of the NRT scheduler
                     and wake it: the body of ClockScheduler.run's loop)
@@ -89,7 +89,7 @@ def run_case(case, mode):
     def api(op, t, v, inval=None):
         """one public API call; returns the value (exceptions propagate)"""
         if op == 'next':
-            return routines[t].next(inval)
+            return next(routines[t]) if inval is None else routines[t].next(inval)    # iterator protocol / send
         if op in ('play', 'pause', 'resume', 'stop', 'reset'):
             return getattr(routines[t], op)()
         if op in ('signal', 'unhang'):
@@ -141,6 +141,8 @@ def body(HEADER):
             got = yield 's%d' % ins['v']
         elif op == 'wait':
             got = yield from conds[ins['t']].wait()
+        elif op == 'embed':
+            got = yield from routines[ins['t']].__embed__()
         elif op == 'fget':
             got = yield from flows[ins['t']].value
             x, v = val(got)
@@ -167,7 +169,8 @@ def body(HEADER):
             src = src.replace('HEADER', 'inval').replace('INVAL', 'inval').replace('FIRST', 'True')
         else:
             src = src.replace('HEADER', '').replace('INVAL', 'None').replace('FIRST', 'False')
-        env = dict(r=r, code=p['code'], start=start, simple=simple, conds=conds, flows=flows, val=val, L=L)
+        env = dict(r=r, code=p['code'], start=start, simple=simple, conds=conds, flows=flows, routines=routines,
+                   val=val, L=L)
         exec(src, env)
         return env['body']
 
